@@ -1,5 +1,6 @@
-import CentrifugeVerif.Model.Handshake
 import CentrifugeVerif.Model.CloseCode
+import CentrifugeVerif.Proofs.HandshakeTokens
+import CentrifugeVerif.Proofs.HandshakeKey
 /-!
 # C31 — WebSocket close codes and handshake follow the RFC
 
@@ -201,5 +202,262 @@ theorem close_frame_records (code : Nat) (reason : Bytes)
 
 example : (transportClose {} 3001 (ascii "shutdown")).2 =
     [[0x88, 10, 0x0B, 0xB9] ++ ascii "shutdown"] := by decide
+
+
+/-! ## Opening handshake -/
+
+/-- what `Upgrade` demands of an HTTP/1.1 request (besides the origin check) -/
+def H1Conditions (cfg : Config) (r : Request) : Prop :=
+  cfg.disableHTTP1Upgrade = false ∧
+  tokenListContains (r.values "Connection") (ascii "upgrade") = true ∧
+  tokenListContains (r.values "Upgrade") (ascii "websocket") = true ∧
+  r.method = ascii "GET" ∧
+  tokenListContains (r.values "Sec-Websocket-Version") (ascii "13") = true ∧
+  isValidChallengeKey (r.get "Sec-Websocket-Key") = .valid
+
+theorem upgrade_accept_h1_iff (cfg : Config) (r : Request) (h1 : r.protoMajor = 1) :
+    (∃ k s c, upgrade cfg r = .acceptH1 k s c) ↔ H1Conditions cfg r ∧ originOK cfg r = true := by
+  unfold H1Conditions upgrade
+  simp only [h1, if_true]
+  by_cases hd : cfg.disableHTTP1Upgrade = true
+  · simp [hd]
+  · by_cases hc : tokenListContains (r.values "Connection") (ascii "upgrade") = true
+    · by_cases hu : tokenListContains (r.values "Upgrade") (ascii "websocket") = true
+      · by_cases hm : r.method = ascii "GET"
+        · by_cases hv : tokenListContains (r.values "Sec-Websocket-Version") (ascii "13") = true
+          · cases hk : isValidChallengeKey (r.get "Sec-Websocket-Key") with
+            | valid =>
+              by_cases ho : originOK cfg r = true
+              · simp [hd, hc, hu, hm, hv, ho]
+              · simp [hd, hc, hu, hm, hv, ho]
+            | invalid => simp [hd, hc, hu, hm, hv]
+            | panic => simp [hd, hc, hu, hm, hv]
+          · simp [hd, hc, hu, hm, hv]
+        · simp [hd, hc, hu, hm]
+      · simp [hd, hc, hu]
+    · simp [hd, hc]
+
+def H2Conditions (r : Request) : Prop :=
+  r.get ":protocol" = ascii "websocket" ∧ r.method = ascii "CONNECT" ∧
+  tokenListContains (r.values "Sec-Websocket-Version") (ascii "13") = true
+
+theorem upgrade_accept_h2_iff (cfg : Config) (r : Request) (h2 : r.protoMajor = 2) :
+    (∃ s c, upgrade cfg r = .acceptH2 s c) ↔ H2Conditions r ∧ originOK cfg r = true := by
+  unfold H2Conditions upgrade
+  simp only [h2, if_true]
+  by_cases hp : r.get ":protocol" = ascii "websocket"
+  · by_cases hm : r.method = ascii "CONNECT"
+    · by_cases hv : tokenListContains (r.values "Sec-Websocket-Version") (ascii "13") = true
+      · by_cases ho : originOK cfg r = true
+        · simp [hp, hm, hv, ho]
+        · simp [hp, hm, hv, ho]
+      · simp [hp, hm, hv]
+    · simp [hp, hm]
+  · simp [hp]
+
+theorem upgrade_other_proto_rejected (cfg : Config) (r : Request) (h1 : r.protoMajor ≠ 1) (h2 : r.protoMajor ≠ 2) :
+    upgrade cfg r = .reject 400 .badProto := by
+  simp [upgrade, h1, h2]
+
+/-- what an accepted HTTP/1.1 upgrade answers with -/
+theorem upgrade_h1_result (cfg : Config) (r : Request) (k s : Bytes) (c : Bool)
+    (h : upgrade cfg r = .acceptH1 k s c) :
+    k = computeAcceptKey (r.get "Sec-Websocket-Key") ∧ s = selectSubprotocol cfg r ∧
+      c = negotiateCompression cfg r := by
+  unfold upgrade at h
+  repeat' (split at h)
+  all_goals (try (cases hk : isValidChallengeKey (r.get "Sec-Websocket-Key") <;> simp_all))
+
+/-- the selected subprotocol is one of the server's and one the client listed (an element of the
+comma separated first `Sec-WebSocket-Protocol` header line, surrounding white space ignored) -/
+theorem subprotocol_offered (cfg : Config) (r : Request) (hs : selectSubprotocol cfg r ≠ []) :
+    ∃ server, cfg.subprotocols = some server ∧ selectSubprotocol cfg r ∈ server ∧
+      ∃ e ∈ splitComma (r.get "Sec-Websocket-Protocol"), trimSpace e = selectSubprotocol cfg r := by
+  unfold selectSubprotocol at hs ⊢
+  cases hsub : cfg.subprotocols with
+  | none => simp [hsub] at hs
+  | some server =>
+    simp only [hsub] at hs ⊢
+    refine ⟨server, rfl, ?_⟩
+    by_cases he : (r.get "Sec-Websocket-Protocol").isEmpty = true
+    · simp [he] at hs
+    · simp only [he, Bool.false_eq_true, if_false] at hs ⊢
+      generalize hel : (if ((splitComma (r.get "Sec-Websocket-Protocol")).getLast?.getD []).isEmpty = true
+        then (splitComma (r.get "Sec-Websocket-Protocol")).dropLast
+        else splitComma (r.get "Sec-Websocket-Protocol")) = elems at hs ⊢
+      have hsubset : ∀ e ∈ elems, e ∈ splitComma (r.get "Sec-Websocket-Protocol") := by
+        intro e hmem
+        rw [← hel] at hmem
+        split at hmem
+        · exact List.dropLast_subset _ hmem
+        · exact hmem
+      cases hf : (elems.map trimSpace).find? (fun p => server.contains p) with
+      | none => rw [hf] at hs; exact absurd rfl hs
+      | some p =>
+        simp only []
+        have hp := List.find?_some hf
+        have hm := List.mem_of_find?_eq_some hf
+        rw [List.mem_map] at hm
+        obtain ⟨e, he1, he2⟩ := hm
+        refine ⟨by simpa using hp, e, hsubset e he1, he2⟩
+
+/-- permessage-deflate is negotiated only when enabled and offered by the client -/
+theorem compression_offered (cfg : Config) (r : Request) (h : negotiateCompression cfg r = true) :
+    cfg.enableCompression = true ∧
+      ∃ e ∈ parseExtensions (r.values "Sec-Websocket-Extensions"), e.name = ascii "permessage-deflate" := by
+  unfold negotiateCompression at h
+  simp only [Bool.and_eq_true, List.any_eq_true, beq_iff_eq] at h
+  exact h
+
+/-- **accept key**: an accepted HTTP/1.1 upgrade answers with
+`Sec-WebSocket-Accept = base64(sha1(Sec-WebSocket-Key ++ "258EAFA5-E914-47DA-95CA-C5AB0DC85B11"))`
+(RFC 6455 §4.2.2 step 5.4), `sha1` and `base64` being the Lean implementations of FIPS 180-4 /
+RFC 4648 in `Model/Sha1.lean`, `Model/Base64.lean`. -/
+theorem accept_key_rfc (cfg : Config) (r : Request) (k s : Bytes) (c : Bool)
+    (h : upgrade cfg r = .acceptH1 k s c) :
+    k = encode (sha1 (r.get "Sec-Websocket-Key" ++ ascii "258EAFA5-E914-47DA-95CA-C5AB0DC85B11")) :=
+  (upgrade_h1_result cfg r k s c h).1
+
+/-- … and the negotiated subprotocol / compression of an accepted upgrade were offered -/
+theorem accepted_negotiation_offered (cfg : Config) (r : Request) (k s : Bytes) (c : Bool)
+    (h : upgrade cfg r = .acceptH1 k s c) :
+    (s ≠ [] → ∃ server, cfg.subprotocols = some server ∧ s ∈ server ∧
+        ∃ e ∈ splitComma (r.get "Sec-Websocket-Protocol"), trimSpace e = s) ∧
+    (c = true → cfg.enableCompression = true ∧
+        ∃ e ∈ parseExtensions (r.values "Sec-Websocket-Extensions"), e.name = ascii "permessage-deflate") := by
+  obtain ⟨_, hs, hc⟩ := upgrade_h1_result cfg r k s c h
+  subst hs hc
+  exact ⟨subprotocol_offered cfg r, compression_offered cfg r⟩
+
+/-! ### against the declarative RFC reading of the header fields (`Spec/Upgrade.lean`) -/
+open CentrifugeVerif.UpgradeSpec
+
+/-- soundness for *all* header values: if `tokenListContainsValue` says yes, some line has the
+token as a well-formed comma separated element. -/
+theorem token_list_sound (lines : List Bytes) (v : Bytes) (h : tokenListContains lines v = true) :
+    HeaderHas lines v := by
+  unfold tokenListContains at h
+  rw [List.any_eq_true] at h
+  obtain ⟨l, hl, h⟩ := h
+  exact ⟨l, hl, lineContains_sound v _ l h⟩
+
+/-- on well-formed `1#token` field values the scanner decides RFC 7230 list membership exactly
+(values with empty or malformed elements are not valid `1#token` lists; there the scanner accepts
+only when every element before the hit is well-formed). -/
+theorem token_list_spec (lines : List Bytes) (v : Bytes) (hwf : ∀ l ∈ lines, WellFormedList l) :
+    tokenListContains lines v = true ↔ HeaderHas lines v := by
+  constructor
+  · exact token_list_sound lines v
+  · rintro ⟨l, hl, hhas⟩
+    unfold tokenListContains
+    rw [List.any_eq_true]
+    exact ⟨l, hl, lineContains_complete v _ l (by omega) (hwf l hl) hhas⟩
+
+/-- RFC 6455 §4.2.1 items 1, 3, 4, 5, 6 for an HTTP/1.1 request (item 2, `Host`, is enforced by
+`net/http`; the key item is `isValidChallengeKey`, i.e. 24 characters that base64-decode to 16
+bytes). -/
+def ValidUpgradeH1 (r : Request) : Prop :=
+  r.method = ascii "GET" ∧
+  HeaderHas (r.values "Connection") (ascii "upgrade") ∧
+  HeaderHas (r.values "Upgrade") (ascii "websocket") ∧
+  HeaderHas (r.values "Sec-Websocket-Version") (ascii "13") ∧
+  isValidChallengeKey (r.get "Sec-Websocket-Key") = .valid
+
+/-- the `Connection`, `Upgrade` and `Sec-WebSocket-Version` values are well-formed token lists -/
+def WellFormedHeaders (r : Request) : Prop :=
+  (∀ l ∈ r.values "Connection", WellFormedList l) ∧ (∀ l ∈ r.values "Upgrade", WellFormedList l) ∧
+  (∀ l ∈ r.values "Sec-Websocket-Version", WellFormedList l)
+
+/-- **accepts exactly the valid upgrades**: for an HTTP/1.1 request with well-formed header lists
+(and HTTP/1.1 upgrades enabled), `Upgrade` accepts iff the request is a valid WebSocket upgrade and
+passes the origin check. -/
+theorem upgrade_accept_iff (cfg : Config) (r : Request) (h1 : r.protoMajor = 1)
+    (hen : cfg.disableHTTP1Upgrade = false) (hwf : WellFormedHeaders r) :
+    (∃ k s c, upgrade cfg r = .acceptH1 k s c) ↔ ValidUpgradeH1 r ∧ originOK cfg r = true := by
+  rw [upgrade_accept_h1_iff cfg r h1]
+  unfold H1Conditions ValidUpgradeH1
+  rw [token_list_spec _ _ hwf.1, token_list_spec _ _ hwf.2.1, token_list_spec _ _ hwf.2.2]
+  constructor
+  · rintro ⟨⟨_, hc, hu, hm, hv, hk⟩, ho⟩; exact ⟨⟨hm, hc, hu, hv, hk⟩, ho⟩
+  · rintro ⟨⟨hm, hc, hu, hv, hk⟩, ho⟩; exact ⟨⟨hen, hc, hu, hm, hv, hk⟩, ho⟩
+
+/-- without the well-formedness assumption one direction still holds: every accepted request is a
+valid upgrade that passed the origin check (nothing invalid is ever accepted). -/
+theorem upgrade_accept_sound (cfg : Config) (r : Request) (h1 : r.protoMajor = 1)
+    (h : ∃ k s c, upgrade cfg r = .acceptH1 k s c) : ValidUpgradeH1 r ∧ originOK cfg r = true := by
+  obtain ⟨⟨_, hc, hu, hm, hv, hk⟩, ho⟩ := (upgrade_accept_h1_iff cfg r h1).mp h
+  exact ⟨⟨hm, token_list_sound _ _ hc, token_list_sound _ _ hu, token_list_sound _ _ hv, hk⟩, ho⟩
+
+/-- the default origin check is "no Origin header, or its host equals `Host` ignoring ASCII case" -/
+theorem default_origin_check (cfg : Config) (r : Request) (hco : cfg.checkOrigin = none) :
+    originOK cfg r = true ↔
+      r.values "Origin" = [] ∨ ∃ h, r.originHost = some h ∧ h.map lower = r.host.map lower := by
+  unfold originOK checkSameOrigin
+  rw [hco]
+  cases hv : r.values "Origin" with
+  | nil => simp
+  | cons o os =>
+    cases ho : r.originHost with
+    | none => simp
+    | some h => simp [foldEq_iff]
+
+/-! ### Finding C31-1: `Upgrade` can panic -/
+
+theorem upgrade_panic_only_key (cfg : Config) (r : Request) (h : upgrade cfg r = .panic) :
+    isValidChallengeKey (r.get "Sec-Websocket-Key") = .panic := by
+  unfold upgrade at h
+  repeat' (split at h)
+  all_goals (try (cases hk : isValidChallengeKey (r.get "Sec-Websocket-Key") <;> simp_all))
+
+/-- `Upgrade` does not panic …_partial: only for requests whose key has at most 22 alphabet
+characters.  Full statement (false, see the witness below): `∀ cfg r, upgrade cfg r ≠ .panic`. -/
+theorem upgrade_no_panic_partial (cfg : Config) (r : Request)
+    (hk : alphaCount (r.get "Sec-Websocket-Key") ≤ 22) : upgrade cfg r ≠ .panic := by
+  intro h
+  have := key_panic_needs_23 _ (upgrade_panic_only_key cfg r h)
+  omega
+
+/-! ### witnesses / non-vacuity -/
+
+def h1Request (key : Bytes) : Request :=
+  { protoMajor := 1, method := ascii "GET", host := ascii "example.com",
+    headers := [(ascii "Connection", ascii "keep-alive, Upgrade"), (ascii "Upgrade", ascii "WebSocket"),
+      (ascii "Sec-Websocket-Version", ascii "13"), (ascii "Sec-Websocket-Key", key),
+      (ascii "Sec-Websocket-Protocol", ascii "chat, centrifuge-protobuf")],
+    originHost := none }
+
+def centrifugeCfg : Config :=
+  { subprotocols := some [ascii "centrifuge-json", ascii "centrifuge-protobuf"], enableCompression := true,
+    disableHTTP1Upgrade := false, checkOrigin := none }
+
+theorem upgrade_panics_witness :
+    upgrade centrifugeCfg (h1Request (ascii "AAAAAAAAAAAAAAAAAAAAAAAA")) = .panic := by decide
+
+theorem rfc6455_example_accept :
+    computeAcceptKey (ascii "dGhlIHNhbXBsZSBub25jZQ==") = ascii "s3pPLMBiTxaQ9kYGzzhZRbK+xOo=" := by decide +kernel
+
+example : upgrade centrifugeCfg (h1Request (ascii "dGhlIHNhbXBsZSBub25jZQ==")) =
+    .acceptH1 (ascii "s3pPLMBiTxaQ9kYGzzhZRbK+xOo=") (ascii "centrifuge-protobuf") false := by decide +kernel
+
+theorem sha1_abc : sha1 (ascii "abc") =
+    [0xA9, 0x99, 0x3E, 0x36, 0x47, 0x06, 0x81, 0x6A, 0xBA, 0x3E, 0x25, 0x71, 0x78, 0x50, 0xC2, 0x6C, 0x9C, 0xD0, 0xD8, 0x9D] := by
+  decide +kernel
+
+/-- the hypotheses of `upgrade_accept_iff` hold for an ordinary browser-style request -/
+example : WellFormedList (ascii "keep-alive, Upgrade") := by
+  intro e he
+  have hs : splitComma (ascii "keep-alive, Upgrade") = [ascii "keep-alive", ascii " Upgrade"] := by decide
+  rw [hs] at he
+  simp only [List.mem_cons, List.not_mem_nil, or_false] at he
+  rcases he with rfl | rfl
+  · exact ⟨ascii "keep-alive", [], [], (by decide), (by intro c hc; cases hc), (by intro c hc; cases hc),
+      (by unfold IsToken; decide)⟩
+  · exact ⟨ascii "Upgrade", [32], [], (by decide), (by unfold IsOWS; decide), (by intro c hc; cases hc),
+      (by unfold IsToken; decide)⟩
+
+example : ListHas (ascii "keep-alive, Upgrade") (ascii "upgrade") :=
+  ⟨ascii " Upgrade", by decide, ascii "Upgrade",
+    ⟨[32], [], (by decide), (by unfold IsOWS; decide), (by intro c hc; cases hc), (by unfold IsToken; decide)⟩,
+    (by decide)⟩
 
 end CentrifugeVerif.C31
